@@ -26,6 +26,7 @@ import tempfile
 
 from vf.engine import runner
 from vf.engine.mm import check_no_mismatch
+from vf.engine.stubs_graph import inner_digraph, split_edges
 from vf.engine.symex import ENGINE
 from vf.engine.xh import kernel_names, replay_kernel, run_kernels
 from vf.universes import is_anc_or_self
@@ -216,7 +217,7 @@ def conv_outcome(form: str, path: tuple, sel):
         g = NetworkxGraph(sorted(M), imports)
     except Exception as e:  # noqa: BLE001
         return ("MISMATCH", "a graph", f"{type(e).__name__}: {e}")
-    got = {(u, v) for u, v, d in g._graph.edges(data=True) if not d["inherits"]}
+    got = split_edges(inner_digraph(g))[0]
     return compare(form, M, present, got, set(g.nodes))
 
 
@@ -261,11 +262,37 @@ def e2e_outcome(form: str, path: tuple, assign: dict):
             ev = get_evaluable_architecture(root, mp)
         except Exception as e:  # noqa: BLE001
             return ("MISMATCH", "an architecture", f"{type(e).__name__}: {e}")
-        g = ev._graph._graph
-        got = {(u, v) for u, v, dd in g.edges(data=True) if not dd["inherits"]}
+        g = inner_digraph(ev)
+        got = split_edges(g)[0]
         return compare(form, M, present, got, set(g.nodes))
     finally:
         shutil.rmtree(d, ignore_errors=True)
+
+
+# --- several import statements in one file, end to end on the symbolic file system -----------------------------
+# (C04's scan / judge machinery with a universe of this check's own: the same module name `w` exists at four places of
+# the tree, and one file holds up to nine import statements that spell it absolutely and relatively at levels 1-3.
+# Which statements are present and which of the `w` files exist are z3 atoms; every statement must yield its own edge
+# whatever else the file imports.)
+
+PAIR_TREE = {"r": "dir", "r/w.py": "file", "r/a": "dir", "r/a/w.py": "file", "r/a/m.py": "file", "r/a/x": "dir", "r/a/x/w.py": "file",
+             "r/a/x/u.py": "file", "r/b": "dir", "r/b/w.py": "file"}
+PAIR_LINES = {
+    "u": {"r/a/x/u.py": ["from .w import f", "from ..w import g", "from ...w import h", "from . import w", "from .. import w", "from ...b import w",
+                         "import r.w as ww", "import r.a.w", "from r.a.x import w"]},
+    "m": {"r/a/m.py": ["from .w import f", "from ..w import f", "from .x.w import f", "from ..b.w import f", "from . import w, x", "from .. import w", "import r.b.w, r.w"]},
+    "u-sub": {"r/a/x/u.py": ["from .w import f", "from ..w import g", "from . import w", "from .. import w", "import a.w", "import a.x.w", "from a import w", "import r.a.w"]},
+}
+
+
+def pair_instances(tier: str) -> list[dict]:
+    base = {"part": "pairs", "entry": "path", "lines": "pairs", "cands": PAIR_TREE, "cap": 1 << 15}
+    out = [
+        dict(base, mp="r", name="u", lineset=PAIR_LINES["u"], relational=False, fixed={"r/a/x/u.py": True, "r/a/m.py": False}),
+        dict(base, mp="r", name="m", lineset=PAIR_LINES["m"], relational=False, fixed={"r/a/m.py": True, "r/a/x/u.py": False}),
+        dict(base, mp="r/a", name="u-sub", lineset=PAIR_LINES["u-sub"], relational=False, fixed={"r/a/x/u.py": True, "r/a/m.py": False, "r/b/w.py": False}),
+    ]
+    return out
 
 
 # --- instances ---------------------------------------------------------------------------------------------
@@ -301,10 +328,13 @@ def instances(tier: str) -> list[dict]:
         for i, p in enumerate(deep3):
             out.append({"part": "conv", "form": forms[i % len(forms)], "path": [list(s) for s in p]})
     out.append({"part": "grammar"})
+    out.extend(pair_instances(tier))
     return out
 
 
 def label_of(i) -> str:
+    if i["part"] == "pairs":
+        return f"pairs {i['name']} module_path={i['mp']} statements {sorted(i['lineset'].items())}"
     if i["part"] == "conv":
         return f"conv {i['form']} [{FORMS[i['form']][0]}] at {'/'.join(c + '.' + f for c, f in i['path']) or 'module level'}"
     return " ".join(f"{k}={v}" for k, v in i.items() if k != "tier")
@@ -320,6 +350,12 @@ def keys_of(form: str):
 def work(inst: dict) -> dict:
     if inst["part"] == "kernel":
         res = run_kernels("vf.kernels.k02", inst["tier"], [inst["name"]])
+        res["label"] = label_of(inst)
+        return res
+    if inst["part"] == "pairs":
+        from vf.props import c04
+
+        res = c04.work(inst)
         res["label"] = label_of(inst)
         return res
     if inst["part"] == "grammar":
@@ -357,6 +393,10 @@ def work(inst: dict) -> dict:
 def replay_detail(payload: dict):
     if payload["kind"] == "kernel":
         return replay_kernel(payload)
+    if payload["kind"] == "scan":
+        from vf.props import c04
+
+        return c04.replay_detail(payload)
     form, path = payload["form"], tuple(tuple(s) for s in payload["path"])
     assign = {tuple(k): v for k, v in payload["assign"]}
     o = e2e_outcome(form, path, assign)
@@ -381,7 +421,7 @@ def run(tier: str, only: str | None = None) -> int:
         "positions": f"{len(slots)} statement-list slots of this interpreter's grammar; all depth-1 positions x all forms; " + ("seeded sample of depth-2 / depth-3 positions" if tier == "quick" else "all depth-2 positions x 3 forms, 2000 seeded depth-3 positions"),
         "forms": {k: v[0] + f"   (in {v[1]}" + (f", prefix {v[2]!r})" if v[2] else ")") for k, v in FORMS.items()},
         "candidate_modules": CANDS,
-        "statements_per_file": 3,
+        "statements_per_file": "3 in the converter instances; up to 9 in the end-to-end statement-pair instances (same module name at four places of the tree, absolute and relative spellings at levels 1-3)",
         "kernels": "names <= 7 chars over {a,b,.}, level <= 3",
     }
     rep.assumptions = [
